@@ -152,6 +152,7 @@ INLINE = [
     "<draw:text-box><text:p>boxed</text:p></draw:text-box></draw:frame>",
     '<text:note text:id="ftn2" text:note-class="footnote"><text:note-citation/>'
     "<text:note-body><text:p>note without citation</text:p></text:note-body></text:note>",
+    "line\u2028sep", "para\u2029sep\u0085nel", "nbsp\u00a0", "\u00a0lead \u3000wide",
     '<text:bookmark text:name="bm"/>', '<text:bookmark-start text:name="b2"/>', '<text:bookmark-end text:name="b2"/>',
     '<office:annotation><dc:creator>me</dc:creator><text:p>remark</text:p></office:annotation>',
     '<text:span text:style-name="T2"><text:span text:style-name="T3">deep</text:span> tail</text:span>',
@@ -190,6 +191,8 @@ def generated_document(rng):
         st = rand_state(rng, 4, 4)
         st["rows"] = [r + [0] * rng.randint(0, 3) for r in st["rows"]] + [[0, 0]] * rng.randint(0, 3)
         w = max([len(r) for r in st["rows"]], default=0)
+        if rng.random() < 0.5 and w:
+            st["rows"].append([0] * (w - 1) + [3])      # a value in the bottom-right corner: nothing to strip at the bottom, rows above still end with empties
         st["cols"] = [0] * (w + rng.randint(0, 2))
         if st["rows"]:
             body.append(Element.from_tag(tl.table_xml(st, "max", rng, name=f"GT{i}")))
